@@ -74,6 +74,17 @@ impl<T> SideLock<T> {
     pub fn take(self) -> Option<T> { unimplemented!() }
 }
 
+/// R-SIDECHAN: the read of the panic side channel, `self.panic_message.lock().unwrap().take()`. The channel is written by
+/// merge functions running inside the database, so its content is modelled as ghost state of the Database
+/// (`panic_pending`): the read returns the message iff one is pending and empties the channel; nothing else changes.
+#[verifier::external_body]
+pub fn vc_take_panic(chan: &SideChannel<String>, db: &mut Database) -> (r: Option<String>)
+    ensures
+        r is Some <==> old(db).panic_pending(),
+        !final(db).panic_pending(),
+        final(db).same_but_panic(old(db)),
+{ unimplemented!() }
+
 // ------------------------------------------------------------------------------------------------
 // core_relations::Database, reduced to the ghost observers the driver's correctness argument needs.
 
@@ -170,6 +181,21 @@ impl Database {
 
     pub open spec fn uf_len(&self) -> nat { self.table_len(self.uf()) }
 
+    /// a merge function of this database has recorded a panic message in the bridge's side channel (the panic
+    /// functions are external functions registered in the database; they write `Arc<Mutex<Option<String>>>`) and nobody
+    /// has read it yet. Any operation that can run merge functions may raise it; see R-SIDECHAN / vc_take_panic.
+    pub uninterp spec fn panic_pending(&self) -> bool;
+    /// everything but the pending-panic flag is the same
+    pub open spec fn same_but_panic(&self, o: &Database) -> bool {
+        &&& self.same_frame(o)
+        &&& forall|t: TableId| #[trigger] self.table_len(t) == o.table_len(t)
+        &&& forall|v: Value| #[trigger] self.canon(v) == o.canon(v)
+        &&& forall|ts: Seq<TableId>| #[trigger] self.canon_tables(ts) == o.canon_tables(ts)
+        &&& self.canon_containers() == o.canon_containers()
+        &&& self.phase() == o.phase() && self.last_dirty() == o.last_dirty() && self.last_ts() == o.last_ts() && self.last_tables() == o.last_tables()
+        &&& self.ran() == o.ran()
+    }
+
     pub open spec fn canonical(&self, tables: Seq<TableId>) -> bool {
         self.canon_tables(tables) && self.canon_containers()
     }
@@ -204,6 +230,7 @@ impl Database {
             forall|ts: Seq<TableId>| final(self).canon_tables(ts) == old(self).canon_tables(ts),
             final(self).canon_containers() == old(self).canon_containers(),
             final(self).phase() == 0,
+            final(self).panic_pending() == old(self).panic_pending(),
     { unimplemented!() }
 
     // A-db: merging staged updates keeps a canonical database canonical unless the union-find grew.
@@ -222,6 +249,7 @@ impl Database {
             forall|t: TableId| final(self).table_len(t) == old(self).table_len(t),
             forall|ts: Seq<TableId>| final(self).canonical(ts) == old(self).canonical(ts),
             final(self).ran() == old(self).ran(),
+            final(self).panic_pending() == old(self).panic_pending(),
             r.log() == Seq::<AddRuleCall>::empty(),
             r.mids() == Seq::<Timestamp>::empty(),
     { unimplemented!() }
